@@ -19,6 +19,7 @@ def strategy():
         max_steps=26,
         cond_rate=5,
         focus=True,
+        locked_rate=6,
     )
 
 
